@@ -60,6 +60,7 @@ def self_check(seed):
     return mx
 
 
+HUNG = set()
 LATS = [0.0, -0.0, 90.0, -90.0, 1e-12, -1e-12, 1e-9, 89.999999999, -89.999999999, 45.0]
 
 
@@ -172,16 +173,25 @@ def judge_inverse(ns, ctx, case, ell, a, invf, en, x, y, z, api):
     if p <= 0:
         ctx.count('out_of_domain')
         return
+    if 'xyz2llh' in HUNG:
+        ctx.count('skipped_after_nontermination')
+        return
     ctx.judged()
     ctx.count('inverse_judged')
     if p < 1000.0:
         ctx.count('near_axis')
     try:
         if api == 'coord':
-            g = ns.coord.CoordCart(x, y, z).geo(ell, notation=float)
+            with core.deadline(30):
+                g = ns.coord.CoordCart(x, y, z).geo(ell, notation=float)
             lat, lon, h = g.lat, g.lon, g.ell_ht
         else:
-            lat, lon, h = ns.convert.xyz2llh(x, y, z, ell)
+            with core.deadline(30):
+                lat, lon, h = ns.convert.xyz2llh(x, y, z, ell)
+    except core.DidNotReturn as e:
+        HUNG.add('xyz2llh')        # circuit breaker: one witness is enough, do not wait 30 s per case
+        ctx.violation('xyz2llh:did-not-return', case, {'exception': repr(e), 'xyz': [x, y, z]})
+        return
     except Exception as e:
         ctx.violation('xyz2llh:exception', case, {'exception': repr(e), 'xyz': [x, y, z]})
         return
